@@ -105,6 +105,21 @@ def shard_table(flav: str):
             add_violation(part, f"id-map/{flav}/{c.mnemonic}", f"{flav}: id_map[{c.id}] is not {c.__name__}", {"flavour": flav})
         if f.name_map.get(c.mnemonic) is not c and len(by_mn[c.mnemonic]) == 1:
             add_violation(part, f"name-map/{flav}/{c.mnemonic}", f"{flav}: name_map[{c.mnemonic}] is not {c.__name__}", {"flavour": flav})
+    # flavours must not interfere with each other: build fresh instances in every order, then look every class up again
+    from netqasm.lang.instr import flavour as fl
+    ctors = {"vanilla": fl.VanillaFlavour, "nv": fl.NVFlavour, "reids": fl.REIDSFlavour}
+    for order in itertools.permutations(ctors):
+        made = {name: ctors[name]() for name in order}
+        made[order[0]].__class__()          # and one more instance of the first after the others
+        part["evals"] += 1
+        part["distinct"] += 1
+        for name, inst in made.items():
+            for c in fl.CORE_INSTRUCTIONS + list(inst.instrs):
+                if inst.id_map.get(c.id) is not c or inst.name_map.get(c.mnemonic) is not c:
+                    add_violation(part, f"flavours-interfere/{name}", f"after constructing flavours in order {order}, the {name} "
+                                  f"flavour no longer maps {c.mnemonic} (opcode {c.id}) to its own class", {"flavour": flav, "order": list(order)})
+                    break
+    count(part, "flavour-orders", 6)
     count(part, f"classes/{flav}", len(classes))
     add_sample(part, {"flavour": flav, "opcodes": {c.mnemonic: c.id for c in classes}})
     return part
